@@ -84,7 +84,7 @@ def main():
                 if a_ is None and p_.startswith('//'): p_ = '/.' + p_
                 if a_ is None and s_ is None and ':' in p_.split('/')[0]: p_ = './' + p_
                 return Gen.compose({'scheme': s_, 'authority': a_, 'path': p_, 'query': q, 'fragment': f})
-            ra = emb(sch, au, pa, g.pick([None, 'q', '']), g.pick([None, 'f'])); rp = emb(sch2, au2, pp, g.pick([None, 'z']), None)
+            ra = emb(sch, au, pa, g.pick([None, 'q', '', 'a/b/', '/', 'x?y/']), g.pick([None, 'f', '/', 'a/b/', '?/'])); rp = emb(sch2, au2, pp, g.pick([None, 'z', 'z/']), None)   # queries / fragments with the delimiters legal there, also at the end
             lines.append('suffix\t%s\t%s\t%s' % (fam, hexs(ra), hexs(rp))); meta.append(('suffix', fam, ra.encode(), rp.encode()))
             lines.append('base\t%s\t%s' % (fam, hexs(ra))); meta.append(('base', fam, ra.encode(), None))
     impl = run_lines(harness, lines)
